@@ -218,7 +218,11 @@ def parse_with_formats(date_string, date_formats, settings):
                 period = "month"
                 date_obj = set_correct_day_from_settings(date_obj, settings)
 
-            date_obj = apply_timezone_from_settings(date_obj, settings)
+            try:
+                date_obj = apply_timezone_from_settings(date_obj, settings)
+            except OverflowError:
+                # the timezone conversion left the representable range
+                continue
 
             return DateData(date_obj=date_obj, period=period)
     else:
